@@ -18,7 +18,8 @@ EXP_KEYS = {"range-value": "returned-value-aliased:range-iterate", "set-argument
 
 
 def classify(e, op):
-    if e.get("exp") in EXP_KEYS:
+    if e.get("exp") in EXP_KEYS and op in ("get", "has", "range", "iter", "commit-dump", "revert-dump", "commit-diff-reversal", "restore-state"):
+        # a sequence that overwrites handed-out slices: a differing READ there shows the aliasing; other mismatch kinds keep their name
         return EXP_KEYS[e["exp"]]
     if e.get("stale"):
         return "stale-view-after-restore"
